@@ -152,7 +152,34 @@ def run_case(n, place, imports, defs, strict=True):
     if expected_fail:
         obs["outcome"] = "metamodel built although a name is unresolvable"
         return False, obs, None
+    bad = probe(mm, n, place, imports, defs)
+    _LAST["mm"] = (mm, (n, place, imports, defs))
+    obs["outcome"] = "metamodel built"
+    obs["failures"] = [b[:1] if len(b) == 3 and isinstance(b[1], int) else b for b in bad[:3]]
+    key = None
+    if bad and all(len(b) == 3 and isinstance(b[1], int) and on_stack_only(b[1], b[2], imports, defs, n) for b in bad):
+        key = "import_cycle_back_reference"
+    return not bad, obs, key
+
+
+_LAST = {}
+
+
+def probe(mm, n, place, imports, defs):
+    """which rule does an unqualified X / Y denote in every file of this meta-model (keyword accepted, class of the object)"""
+    from textx.exceptions import TextXError
+
     bad = []
+    # the meta-model as a dictionary: an unqualified name is looked up from the root grammar
+    for nm in NAMES:
+        j = resolve(0, nm, imports, defs)
+        try:
+            got = mm[nm]._tx_fqn
+        except KeyError:
+            got = None
+        want0 = None if j is None else ns(j, place) + "." + nm
+        if got != want0:
+            bad.append(("metamodel[%r]" % nm, got, want0))
     for i in range(n):
         for nm in NAMES:
             j = resolve(i, nm, imports, defs)
@@ -184,12 +211,7 @@ def run_case(n, place, imports, defs, strict=True):
                                 bad.append(("alias rule AX%d yields" % i, type(ma.us[0].ax)._tx_fqn, want))
                         except TextXError as e:
                             bad.append(("alias rule AX%d rejects the keyword of its own X" % i, str(e)[:80]))
-    obs["outcome"] = "metamodel built"
-    obs["failures"] = [b[:1] if len(b) == 3 and isinstance(b[1], int) else b for b in bad[:3]]
-    key = None
-    if bad and all(len(b) == 3 and isinstance(b[1], int) and on_stack_only(b[1], b[2], imports, defs, n) for b in bad):
-        key = "import_cycle_back_reference"
-    return not bad, obs, key
+    return bad
 
 
 def cases(n, tier):
@@ -215,10 +237,20 @@ def work(arg):
     cs = arg
     u = Unit()
     for c in cs:
+        before = _LAST.get("mm")
+        first = probe(*((before[0],) + before[1])) if before else None
         with watchdog(30):
             ok, obs, key = run_case(*c)
         if ok is None:
             continue
+        if before is not None and _LAST.get("mm") is not before:
+            # history of two meta-models built from equally named grammar files: the earlier one must answer as it did before
+            again = probe(*((before[0],) + before[1]))
+            u.count("earlier meta-model probed again after the next one was built")
+            if again != first:
+                u.fail(["history"] + list(c), {"history": [list(before[1]), list(c)]}, sig="earlier meta-model changed",
+                       what="meta-model built for %s answers differently after the meta-model for %s was built from files of the same names: before %s, after %s" % (
+                           before[1], c, first[:2], again[:2]))
         nimp = sum(len(x) for x in c[2])
         u.case(list(c), nontrivial=nimp > 0, sample=obs if nimp > 2 and obs.get("outcome") == "metamodel built" else None)
         u.count("outcome:" + obs.get("outcome", "?").split(":")[0][:30])
@@ -242,6 +274,17 @@ def run(ctx):
 
 
 def replay(p):
+    if "history" in p:
+        h = p["history"]
+        tup = lambda c: (c[0], tuple(c[1]), tuple(tuple(x) for x in c[2]), tuple(tuple(x) for x in c[3]))
+        _LAST.clear()
+        run_case(*tup(h[0]))
+        before = _LAST["mm"]
+        first = probe(*((before[0],) + before[1]))
+        c2 = h[1]
+        run_case(*(tup(c2) + ((c2[4],) if len(c2) > 4 else ())))
+        again = probe(*((before[0],) + before[1]))
+        return again == first, {"first": str(first[:2]), "again": str(again[:2])}
     c = p["case"]
     r = run_case(c[0], tuple(c[1]), tuple(tuple(x) for x in c[2]), tuple(tuple(x) for x in c[3]), c[4] if len(c) > 4 else True)
     return bool(r[0]), r[1]
